@@ -581,12 +581,14 @@ def hasInfix (p : Str) : Str → Bool
 
 /-- import paths gozodgen writes for a struct with these fields, beside `github.com/kaptinlin/gozod`
     (legacy: the `time` import is keyed on `field.Type.String()` containing "time.Time", which the marker type
-    `main.timeType` never does: it is never written; with `sliceTyped`: keyed on the emitted code of the field) -/
+    `main.timeType` never does: it is never written; with `sliceTyped`: keyed on the constructor text of the field — `baseConstructor`, never a rule parameter) -/
 def importsOf (W : WriterFacts) (fields : List (List Rule)) (chains : List Chain) : List String :=
   let has (ns : List String) := fields.any fun rs => rs.any fun r => ns.any fun n => r.name = asc n
-  (if W.sliceTyped ∧ chains.any (fun c => hasInfix (asc "time.Time") c.render) then ["time"] else []) ++
+  (if W.sliceTyped ∧ chains.any (fun c => match c.ctor with
+        | .enum _ | .uuid | .url => false          -- a string field: baseConstructor("string") = gozod.String()
+        | e => hasInfix (asc "time.Time") e.render) then ["time"] else []) ++
   (if has ["trim", "lowercase", "uppercase"] then ["strings"] else []) ++
-  (if has ["regex"] then ["regexp"] else []) ++
+  (if (fields.zip chains).any (fun fc => fc.1.any (fun r => r.name = asc "regex") ∧ fc.2.calls.any (fun k => k.name == "Regex")) then ["regexp"] else []) ++
   (if W.urlImport ∧ has ["url"] then ["net/url"] else []) ++
   (if has ["ipv4", "ipv6"] then ["net"] else []) ++
   (if has ["refine", "check"] then ["github.com/kaptinlin/gozod/core"] else [])
